@@ -8,6 +8,7 @@
   Proofs in `Pyab/Proofs/Mask.lean`.
 -/
 import Pyab.Generated.Config
+import Pyab.Properties.EvaluatorPremise
 import Pyab.Properties.C02
 import Pyab.Properties.C05
 import Pyab.Proofs.Mask
